@@ -14,7 +14,7 @@ import vlib
 from vlib import coqlist, zlit
 
 PROPERTY = "C04"
-MODEL_TARGETS = ["Model/C04AddrMap.vo", "Model/C04Csr.vo", "Model/C04Rocc.vo"]
+MODEL_TARGETS = ["Model/C04AddrMap.vo", "Model/C04Csr.vo", "Model/C04Rocc.vo", "Model/C04Gemmx.vo"]
 RULE = ("part A: streamer configurations with 1-30 streamers (>26 exercises the name truncation), 0-7 temporal "
         "dims, 0-3 spatial dims, every subset of {address-remap, channel-mask, byte-mask, broadcast, transpose} plus "
         "0-3 DMA extensions (real classes and synthetic names / csr lengths 0-5, duplicate names in the malformed "
@@ -410,12 +410,14 @@ def search_A(ctx, deep):
 # ------------------------------------------------------------------------------------------ driver
 import props.c04_lower as _B
 import props.c04_rocc as _R
+import props.c04_gemmx as _G
 
 
 def correspondence(ctx):
     dis = correspondence_A(ctx)
     dis += _B.correspondence_B(ctx)
     dis += _R.correspondence_R(ctx)
+    dis += _G.correspondence_G(ctx)
     return dis
 
 
@@ -433,6 +435,7 @@ def search(ctx, deep=False):
     fails = search_A(ctx, deep)
     fails += _B.search_B(ctx, deep)
     fails += _R.search_R(ctx, deep)
+    fails += _G.search_G(ctx, deep)
     return _dedup(fails)
 
 
@@ -453,6 +456,8 @@ def replay(ctx, obj):
         return _B.replay(ctx, f)
     if f.get("part") == "R":
         return _R.replay(ctx, f)
+    if f.get("part") == "G":
+        return _G.replay(ctx, f)
     cfg = f.get("cfg")
     if cfg is not None:
         cfg = ([(list(t), list(sp), [tuple(o) for o in opts]) for (t, sp, opts) in cfg[0]], cfg[1])
